@@ -155,6 +155,10 @@ class JsonDocument(HierDictDocument):
     def validate(self, key, cls, val):
         super(JsonDocument, self).validate(key, cls, val)
 
+        if val is None:
+            # null is judged by nillable (validate_native), not as text
+            return
+
         if issubclass(cls, (DateTime, Date, Time)) and not (
                                     isinstance(val, six.string_types) and
                                                  cls.validate_string(cls, val)):
